@@ -7,6 +7,7 @@
    the property's catalogue is proved harmless at the stage that absorbs it, for ALL strings / names / blanks /
    continuations (no bound):
      comments, blank lines, statement independence ........ stage 1   C14_trailing_comment, C14_comment_line, C14_blank_line,
+                                                                    C14_comment_on_a_line, C14_blank_line_between (whole scripts, parse_model equal),
                                                                     C14_split_app, C14_parse_model_by_statements, C14_statements_independent
      blanks inside { } < > [ ], explicit [0], +k ........... stage 2   C14_braces_inner_blanks … C14_plus_sign_index, C14_token_layout_scan
      horizontal whitespace, continuation lines ............ stage 3   C14_whitespace_run_is_one_blank, C14_after_open, C14_before_close
@@ -18,7 +19,7 @@
    metamorphic oracle of harness/props/C14.py.  Findings #20, #22, #24 are stated as refutations. *)
 From Coq Require Import String Ascii List Bool Arith ZArith.
 Import ListNotations.
-Require Import PyBase PyStr Lex Symbols Split Merge ParseEq ParseModel GLex GLexFacts GNorm Layout LayoutNorm LayoutLex LayoutSplit Denorm DenormInt DenormFacts LayoutExamples.
+Require Import PyBase PyStr Lex Symbols Split Merge ParseEq ParseModel GLex GLexFacts GNorm Layout LayoutNorm LayoutLex LayoutSplit LayoutScript Denorm DenormInt DenormFacts LayoutExamples.
 Open Scope string_scope.
 
 (* ---- stage 3: whitespace ---- *)
@@ -135,6 +136,36 @@ Theorem C14_blank_line : forall (st : sstate) (l : string) (rest : list string),
   clean st = true -> is_blank l = true -> split_lines st (l :: rest) = split_lines st rest.
 Proof. exact blank_line_ignored. Qed.
 Print Assumptions C14_blank_line.
+
+(* the same at the level of whole scripts: parse_model (any oracle chk, either check_syntax) returns the SAME result — every
+   symbol and field, or the same exception — when a comment (blanks, "#", any text) is appended to the only / first /
+   last / a middle line of a script.  comment_ok: the line has no "#" of its own and does not end in whitespace (a comment
+   makes the parser strip trailing blanks, which are otherwise kept in the normalised equation) *)
+Theorem C14_comment_on_a_line : forall (chk : string -> chk_res) (cs : bool) (line ws text : string),
+  comment_ok line ws text = true ->
+  parse_model_M chk cs (line ++ ws ++ String "#" text) = parse_model_M chk cs line /\
+  (forall s2, parse_model_M chk cs ((line ++ ws ++ String "#" text) ++ nl_s ++ s2) = parse_model_M chk cs (line ++ nl_s ++ s2)) /\
+  (forall s1, s1 <> "" -> ends_sep s1 = false ->
+     parse_model_M chk cs (s1 ++ nl_s ++ line ++ ws ++ String "#" text) = parse_model_M chk cs (s1 ++ nl_s ++ line) /\
+     forall s2, parse_model_M chk cs (s1 ++ nl_s ++ (line ++ ws ++ String "#" text) ++ nl_s ++ s2)
+                = parse_model_M chk cs (s1 ++ nl_s ++ line ++ nl_s ++ s2)).
+Proof. exact comment_on_a_line. Qed.
+Print Assumptions C14_comment_on_a_line.
+
+(* a blank line or a comment-only line between two statements (s1 ends between statements) changes nothing *)
+Theorem C14_blank_line_between : forall (chk : string -> chk_res) (cs : bool) (s1 b s2 : string) (st : sstate),
+  s1 <> "" -> ends_sep s1 = false -> final_state s0 (model_lines s1) = Some st -> clean st = true ->
+  nosep b = true -> is_blank (strip_comments b) = true ->
+  parse_model_M chk cs (s1 ++ nl_s ++ b ++ nl_s ++ s2) = parse_model_M chk cs (s1 ++ nl_s ++ s2).
+Proof. exact blank_line_between. Qed.
+Print Assumptions C14_blank_line_between.
+
+Theorem C14_script_level_satisfiable :
+  (comment_ok "Y = X" "  " " trailing # twice" = true /\ comment_ok "Y = X " "" "c" = false /\ comment_ok "Y = '#'" " " "c" = false) /\
+  (ex_s1 <> "" /\ ends_sep ex_s1 = false /\ final_state s0 (model_lines ex_s1) = Some s0 /\ clean s0 = true /\
+   nosep "   # only a comment" = true /\ is_blank (strip_comments "   # only a comment") = true /\ nosep "" = true /\ is_blank (strip_comments "") = true).
+Proof. exact (conj ex_comment_ok ex_blank_between). Qed.
+Print Assumptions C14_script_level_satisfiable.
 
 (* the statements of  s1 newline s2  are those of s1 followed by those of s2, when s1 ends between statements *)
 Theorem C14_split_app : forall (s1 s2 : string) (st : sstate),
